@@ -201,11 +201,12 @@ def _redundant_relation(lex: lmf.Lexicon, ids: _Ids) -> _Result:
 
 def _missing_reverse_relation(lex: lmf.Lexicon, ids: _Ids) -> _Result:
     """reverse relation is missing"""
-    regular = {(s['id'], r['relType'], r['target'])
-               for s, r in _sense_relations(lex)
-               if r['target'] in ids['sense']}
-    regular.update((ss['id'], r['relType'], r['target'])
-                   for ss, r in _synset_relations(lex))
+    # a dict is used as an ordered set so the report order is deterministic
+    regular = dict.fromkeys((s['id'], r['relType'], r['target'])
+                            for s, r in _sense_relations(lex)
+                            if r['target'] in ids['sense'])
+    regular.update(dict.fromkeys((ss['id'], r['relType'], r['target'])
+                                 for ss, r in _synset_relations(lex)))
     return {tgt: {'type': REVERSE_RELATIONS[typ], 'target': src}
             for src, typ, tgt in regular
             if typ in REVERSE_RELATIONS
